@@ -75,8 +75,15 @@ Definition stF1 : xstate := fst (import_batch repaired pF 2 chainA stF0 1).
 (* crash; the node is on chain C when the process comes back; Start with ff = 2 *)
 Definition stF2 (ff : Z) : xstate :=
   match start_sync_ff repaired pF ff chainC (xreopen stF1) with XOk s => s | _ => xreopen stF1 end.
-(* the re-created task runs to the end *)
-Definition stF3 (ff : Z) : xstate := fold_left (fun s _ => fst (import_batch repaired pF 2 chainC s 1)) [tt; tt; tt; tt] (stF2 ff).
+(* the re-created task runs to the end.  (The batches are those of the code before asyncImport compared the
+   node's block at the batch's upper height with the synced one, [f_import_tipcheck]: at this scale — batch
+   size 2, upper height 4, where the abandoned record (4, 4) still lies under the node's — that comparison
+   would refuse every batch and the wallet would stay importing for ever instead; in the run on the real
+   code the first batch after the restart ends at height 2000, inside the fast-forwarded records.) *)
+Definition fxF : fixes :=
+  {| f_removable := true; f_rollback := true; f_import_retry := true; f_start_reorg := true; f_rollback_order := true;
+     f_import_tipcheck := false; f_removable_debit := true; f_ff_check := true |}.
+Definition stF3 (ff : Z) : xstate := fold_left (fun s _ => fst (import_batch fxF pF 2 chainC s 1)) [tt; tt; tt; tt] (stF2 ff).
 
 Theorem ff_stale_import_refuted :
   (* at the crash: importing, cursor 2, not ready, the stored tip (block 4) abandoned by the node *)
